@@ -851,7 +851,8 @@ class Ref:
                 trial = v
                 fit(trial, 16, "link address")
             else:
-                raise Unmodelled("link base does not converge")
+                # base = f(base) has no fixed point within reach: the base depends on itself
+                raise RefError("recursive-definition", "the link base does not converge")
             # genuine self-dependence: move the base (same parity) and see whether the link expression follows
             other = trial + 2 if trial + 2 <= 0xFFF0 else trial - 2
             self._layout(other)
